@@ -448,7 +448,6 @@ pub const REQUIRED_CELLS: &[&str] = &[
     "open-last1|correct-continuation|Incomplete",
     "open-last1|correct-final|Complete",
     "open-last2plus|correct-final|Complete",
-    "open-last1|duplicate|Err",
     "open-last2plus|duplicate|Err",
     "open-last1|skip|Err",
     "open-last2plus|behind|Err",
